@@ -6,22 +6,23 @@ from engine.common import VERIF
 
 H = os.path.join(VERIF, "harness", "api")
 US = [(r"^<?.*T2 as .*Term>::(eq|cmp|hash)", 1, "rec?"), (r"c02_terms::same$", 1, "rec?"),
+      (r"c02_langtag::c02_langtag_laws$", 34, "loops?"), (r"c02_langtag::RecH as std::hash::Hasher>::write$", 6, "loops?"),
       (r"c02_terms::RecH as std::hash::Hasher>::write$", 60, "loops?"), (r"c02_terms::same_writes$", 98, "loops?")]
 NAMES = ["c02_laws_bnode", "c02_laws_iri", "c02_laws_variable", "c02_laws_typed_literal", "c02_laws_tagged_literal",
-         "c02_cross_bn_iri", "c02_cross_iri_lit", "c02_cross_lit_tag", "c02_cross_tag_triple", "c02_cross_triple_var", "c02_cross_bn_var", "c02_nsterm_eq"]
+         "c02_cross_bn_iri", "c02_cross_iri_lit", "c02_cross_lit_tag", "c02_cross_tag_triple", "c02_cross_triple_var", "c02_cross_bn_var", "c02_nsterm_eq", "c02_langtag_laws"]
 
 
 def spec(tier):
     cap = 500 if tier == "quick" else 2700
-    hs = [Harness(n, unwind=8, unwindset=US, extra_cbmc=["--unwindset", "memcmp.0:60"], timeout=cap, mem_gb=14,
+    hs = [Harness(n, unwind=8 if n != "c02_langtag_laws" else 6, unwindset=US, extra_cbmc=["--unwindset", "memcmp.0:60"], timeout=cap, mem_gb=14,
                   optional_covers=("equal terms with different encodings",) if False else (),
                   note="three symbolic terms of one kind: eq equivalence + oracle, cmp antisymmetric/transitive/Equal<=>eq, eq => identical hasher input") for n in NAMES]
     return kprop.KSpec(
         package="sophia_api", crate_dir="api",
-        harness_files={"api": [os.path.join(H, "c02_terms.rs")]},
+        harness_files={"api": [os.path.join(H, "c02_terms.rs"), os.path.join(H, "c02_langtag.rs")]},
         harnesses=hs, jobs=6,
         encoded=["sophia_api::term::Term::{eq, cmp, hash} (default methods, inherited by every shipped term type)",
-                 "LanguageTag PartialEq/Ord/Hash (ASCII case folding)", "iri wrapper comparisons (iri/src/_wrap_macro.rs)", "sophia_api::ns::NsTerm::eq"],
+                 "LanguageTag PartialEq/Ord/Hash (ASCII case folding; directly on 1- and 3-byte tags over {a,A,b,1,-} and through tagged literals)", "iri wrapper comparisons (iri/src/_wrap_macro.rs)", "sophia_api::ns::NsTerm::eq"],
         bounds=["terms: IRIs/blank nodes/variables over 1-byte names {a,b,A,B}; typed literals 2 lexical forms x 2 datatypes; tagged literals 2 lexical forms x tags {en,EN,eN,fr}",
                 "three symbolic terms per same-kind harness; one harness per kind pair for the cross-kind order", "NsTerm: namespace+suffix <= 4 bytes over {a,b,/}, other IRI <= 5 bytes, symbolic split"],
         outside=["quoted triples as operands of the laws (3^depth recursion does not finish: 900 s / 14 GB) — only their kind rank is checked",
